@@ -988,6 +988,8 @@ class Machine:
                 return ("dictmethod", base, a)
         if isinstance(base, UKey):
             return Opaque("ukey attr")
+        if isinstance(base, list) and a in ("append", "extend", "insert", "index", "count"):
+            return ("listmethod", base, a)
         if isinstance(base, dict) and a in ("values", "keys", "items", "get"):
             return ("pydictmethod", base, a)
         if isinstance(base, (Opaque, _Unk)):
@@ -1101,6 +1103,18 @@ class Machine:
             if kind == "quantity":
                 self.effects.append(("user", fn[1]))
                 return self.q_value if fn[1] == "quantity" else (args[0] if args else Opaque("transform"))
+            if kind == "listmethod":
+                lst, m = fn[1], fn[2]
+                if m == "append" and len(args) == 1:
+                    lst.append(args[0])          # Python lists of the interpreted function are Python lists here
+                    return None
+                if m == "extend" and len(args) == 1 and isinstance(args[0], (list, tuple)):
+                    lst.extend(args[0])
+                    return None
+                if m == "insert" and len(args) == 2 and isinstance(args[0], Num):
+                    lst.insert(int(args[0].v), args[1])
+                    return None
+                raise Unsup(f"list method {m}")
             if kind == "pydictmethod":
                 d, m = fn[1], fn[2]
                 if m == "values":
@@ -1310,6 +1324,18 @@ class Machine:
                     return False
                 if isinstance(v, (Num, Param)):
                     return False
+                return UNK
+            if name == "isfinite":
+                # not NaN and not infinite
+                if isinstance(v, (Opaque, _Unk)):
+                    return UNK
+                if is_nan(v):
+                    return False
+                if isinstance(v, Pos):
+                    inf = v.is_inf()
+                    return UNK if inf is UNK else (not inf)
+                if isinstance(v, (Num, Param)):
+                    return True
                 return UNK
             if name == "floor":
                 return v
